@@ -1,10 +1,10 @@
 package main
 
 import (
-	"runtime"
 	"math/rand/v2"
 	"net/http"
 	"net/http/httptest"
+	"runtime"
 	"strings"
 	"sync"
 	"sync/atomic"
@@ -805,8 +805,13 @@ func c12EndBurst(c *Ctx) {
 		lg := &yieldLogger{}
 		lg.seed.Store(r.Uint64())
 		opts := []cbreaker.Option{cbreaker.FallbackDuration(fb), cbreaker.RecoveryDuration(rec), cbreaker.CheckPeriod(time.Second), cbreaker.Fallback(fbh)}
-		if r.IntN(2) == 0 {
+		switch i % 3 {
+		case 0:
 			opts = append(opts, cbreaker.Logger(lg))
+		case 1:
+			// a Logger whose warnings take a while (a log sink under load): the breaker logs a warning while it decides
+			// about a request in a non-standby state, so the other requests of the burst queue up behind that decision
+			opts = append(opts, cbreaker.Logger(slowWarnLogger{200 * time.Microsecond}))
 		}
 		cb, err := cbreaker.New(h, "NetworkErrorRatio() > 0.5", opts...)
 		if err != nil {
@@ -833,7 +838,8 @@ func c12EndBurst(c *Ctx) {
 		advance(rec + time.Duration(1+r.IntN(1000)))
 		G := 2 + r.IntN(7)
 		codes := make([]int, G)
-		start := make(chan struct{})
+		// spinning barrier: the requests enter the breaker within nanoseconds of each other
+		var start atomic.Bool
 		var wg sync.WaitGroup
 		var ready atomic.Int64
 		for g := 0; g < G; g++ {
@@ -841,14 +847,15 @@ func c12EndBurst(c *Ctx) {
 			go func(g int) {
 				defer wg.Done()
 				ready.Add(1)
-				<-start
+				for !start.Load() {
+				}
 				codes[g] = serve()
 			}(g)
 		}
 		for ready.Load() < int64(G) {
 			runtime.Gosched()
 		}
-		close(start)
+		start.Store(true)
 		done := make(chan struct{})
 		go func() { wg.Wait(); close(done) }()
 		select {
@@ -940,3 +947,10 @@ func c05LongFallback(c *Ctx) {
 	})
 	c.Require("longfallback_nontrivial", 2)
 }
+
+type slowWarnLogger struct{ d time.Duration }
+
+func (slowWarnLogger) Debug(string, ...any)  {}
+func (slowWarnLogger) Info(string, ...any)   {}
+func (l slowWarnLogger) Warn(string, ...any) { time.Sleep(l.d) }
+func (slowWarnLogger) Error(string, ...any)  {}
